@@ -266,7 +266,7 @@ type replayOut struct {
 
 func report(p *propSpec, tier string, seed int, results []UnitResult, t0 time.Time) int {
 	st := runStats{aborted: map[string]int{}, reached: map[string]int{}, intrinsics: map[string]int64{}, fnSteps: map[string]int64{}}
-	var undecided, broken []string
+	var undecided, broken, skippedUnits []string
 	type viol struct {
 		u Unit
 		v interp.Violation
@@ -297,6 +297,7 @@ func report(p *propSpec, tier string, seed int, results []UnitResult, t0 time.Ti
 		}
 		if r.Skipped != "" {
 			st.skipped++
+			skippedUnits = append(skippedUnits, r.Unit.ID+": "+firstLine(r.Skipped))
 			continue
 		}
 		if len(r.Undecided) > 0 {
@@ -597,6 +598,11 @@ func report(p *propSpec, tier string, seed int, results []UnitResult, t0 time.Ti
 	}
 	for _, b := range broken {
 		fmt.Fprintf(os.Stderr, "BROKEN: %s\n", b)
+	}
+	if os.Getenv("GOSYM_LISTSKIPS") != "" {
+		for _, s := range skippedUnits {
+			fmt.Fprintf(os.Stderr, "  skipped: %s\n", s)
+		}
 	}
 	if len(undecided) > 0 {
 		fmt.Fprintf(os.Stderr, "undecided units (%d): %s\n", len(undecided), strings.Join(head(undecided, 8), "; "))
